@@ -140,7 +140,7 @@ pub fn run(args: &Args) {
         rep.finish();
         return;
     }
-    for k in 0..args.budget(64, 640) {
+    for k in 0..args.budget(64, 320) {
         one(&mut rep, args.case_seed(k));
     }
     rep.finish();
